@@ -1,6 +1,7 @@
 package props
 
 import (
+	"encoding/json"
 	"fmt"
 	"os"
 	"sort"
@@ -21,26 +22,82 @@ type c05Prefix struct {
 	maxView hotstuff.View
 }
 
-func c05(r *ev.Reporter, _ []string) {
+// c05Replay re-runs the synchronous suffix of one recorded violation (replays/C05-*.json written by the
+// prefix x suffix part): mc C05 quick --replay <file>. Exit 1 + VIOLATION if it still fails.
+func c05Replay(r *ev.Reporter, file string) {
+	raw, err := os.ReadFile(file)
+	if err != nil {
+		ev.Broken("C05 replay: %v", err)
+	}
+	var doc struct {
+		Replay struct {
+			Config  string   `json:"config"`
+			Crashed int      `json:"crashed"`
+			Prefix  []string `json:"prefix"`
+		} `json:"replay"`
+	}
+	if err := json.Unmarshal(raw, &doc); err != nil {
+		ev.Broken("C05 replay: %v", err)
+	}
+	var rs string
+	var n, horizon, twin, dev int
+	if _, err := fmt.Sscanf(doc.Replay.Config, "%s n=%d horizon=%d twin=%d deviations<=%d", &rs, &n, &horizon, &twin, &dev); err != nil {
+		ev.Broken("C05 replay: cannot parse configuration %q: %v", doc.Replay.Config, err)
+	}
+	cfg := cluster.Config{N: n, Rules: rs, Horizon: hotstuff.View(horizon), Timeouts: 2 * horizon, Drops: true, Dups: 1, Twin: hotstuff.ID(twin), Cache: 100}
+	w := cluster.New(cfg)
+	var mv hotstuff.View
+	for _, l := range doc.Replay.Prefix {
+		if !w.Apply(l) {
+			ev.Broken("C05 replay: prefix event %q is not enabled", l)
+		}
+	}
+	for _, nd := range w.Nodes {
+		if nd.VS.View() > mv {
+			mv = nd.VS.View()
+		}
+	}
+	res := cluster.SyncSuffix(cfg, doc.Replay.Prefix, mv, hotstuff.ID(doc.Replay.Crashed))
+	r.Count(1, int64(res.Events), 1, 1)
+	fmt.Printf("replay: ok=%v skipped=%v heal=%d detail=%s\n", res.OK, res.Skipped, res.HealView, res.Detail)
+	if !res.OK && !res.Skipped {
+		r.Violation(fmt.Sprintf("C05 %s: no new commit within the view bound after synchrony", rs),
+			fmt.Sprintf("%s, crashed=%d, prefix [%s], heal view %d: %s", doc.Replay.Config, doc.Replay.Crashed, strings.Join(doc.Replay.Prefix, " | "), res.HealView, res.Detail),
+			map[string]any{"config": doc.Replay.Config, "crashed": doc.Replay.Crashed, "prefix": doc.Replay.Prefix, "suffix": res.Trace})
+	}
+}
+
+func c05(r *ev.Reporter, args []string) {
+	if len(args) == 2 && args[0] == "--replay" {
+		c05Replay(r, args[1])
+		return
+	}
 	r.Rule = "prefix set = every canonical state of the deviation-bounded exploration (deliveries out of order, loss, duplicates, timer expiries, twin equivocation) x every crash set of size <= f; from each, the deterministic synchronous suffix (quorum-only FIFO delivery, timers at quiescence, leaders from the quorum) must let every quorum member commit a new block before view heal+3*ChainLength+2; plus the fault-free 12-view lock-step run for fixed/round-robin leaders; plus the isolation family (one replica cut off for k views under every cyclic leader pattern of period 4, then re-joined under three leader rotations: all commit within 3k+3*ChainLength+2 views); distinct = (prefix state, crash set)"
 	type run struct {
 		cfg     cluster.Config
 		bound   int
 		maxPref int
 		dur     time.Duration
+		alt     func(string) bool // restriction of the deviations (nil: any event)
+		altName string
 	}
+	// timers firing early and timeout messages getting lost, nothing else: the faults after which a
+	// replica is left behind in a view whose certificate the others already hold
+	timeoutFaults := func(l string) bool { return strings.HasPrefix(l, "T ") || strings.HasPrefix(l, "X TimeoutMsg") }
 	var runs []run
 	for _, rs := range cluster.RulesNames {
 		if r.Quick() {
 			runs = append(runs,
-				run{cluster.Config{N: 4, Rules: rs, Horizon: 3, Timeouts: 4, Drops: true, Cache: 100}, 1, 700, 45 * time.Second},
-				run{cluster.Config{N: 4, Rules: rs, Horizon: 3, Timeouts: 4, Drops: true, Twin: 3, Cache: 100}, 1, 300, 25 * time.Second},
+				run{cluster.Config{N: 4, Rules: rs, Horizon: 3, Timeouts: 4, Drops: true, Cache: 100}, 1, 700, 45 * time.Second, nil, ""},
+				run{cluster.Config{N: 4, Rules: rs, Horizon: 3, Timeouts: 4, Drops: true, Twin: 3, Cache: 100}, 1, 300, 25 * time.Second, nil, ""},
+				run{cluster.Config{N: 4, Rules: rs, Horizon: 3, Timeouts: 4, Drops: true, Cache: 100}, 2, 1500, 40 * time.Second, timeoutFaults, "early timers / lost timeout messages only"},
 			)
 		} else {
 			runs = append(runs,
-				run{cluster.Config{N: 4, Rules: rs, Horizon: 5, Timeouts: 8, Drops: true, Dups: 1, Cache: 100}, 2, 20000, 8 * time.Minute},
-				run{cluster.Config{N: 4, Rules: rs, Horizon: 5, Timeouts: 8, Drops: true, Twin: 3, Cache: 100}, 1, 8000, 4 * time.Minute},
-				run{cluster.Config{N: 7, Rules: rs, Horizon: 3, Timeouts: 4, Drops: true, Cache: 100}, 1, 3000, 4 * time.Minute},
+				run{cluster.Config{N: 4, Rules: rs, Horizon: 5, Timeouts: 8, Drops: true, Dups: 1, Cache: 100}, 2, 20000, 8 * time.Minute, nil, ""},
+				run{cluster.Config{N: 4, Rules: rs, Horizon: 5, Timeouts: 8, Drops: true, Twin: 3, Cache: 100}, 1, 8000, 4 * time.Minute, nil, ""},
+				run{cluster.Config{N: 7, Rules: rs, Horizon: 3, Timeouts: 4, Drops: true, Cache: 100}, 1, 3000, 4 * time.Minute, nil, ""},
+				run{cluster.Config{N: 4, Rules: rs, Horizon: 4, Timeouts: 6, Drops: true, Cache: 100}, 3, 20000, 6 * time.Minute, timeoutFaults, "early timers / lost timeout messages only"},
 			)
 		}
 	}
@@ -49,7 +106,7 @@ func c05(r *ev.Reporter, _ []string) {
 		// 1. collect the prefix set
 		var mu sync.Mutex
 		var prefixes []c05Prefix
-		ex := &cluster.Explorer{Cfg: ru.cfg, Bound: ru.bound, Deadline: time.Now().Add(ru.dur / 3)}
+		ex := &cluster.Explorer{Cfg: ru.cfg, Bound: ru.bound, Deadline: time.Now().Add(ru.dur / 3), Alt: ru.alt}
 		ex.OnState = func(w *cluster.World, path []string) {
 			var mv hotstuff.View
 			for _, n := range w.Nodes {
@@ -68,6 +125,9 @@ func c05(r *ev.Reporter, _ []string) {
 			ev.Broken("C05 prefix exploration diverged: %v", d)
 		}
 		desc := fmt.Sprintf("%s n=%d horizon=%d twin=%d deviations<=%d", ru.cfg.Rules, ru.cfg.N, ru.cfg.Horizon, ru.cfg.Twin, ru.bound)
+		if ru.altName != "" {
+			desc += " (" + ru.altName + ")"
+		}
 		// 2. suffix from every prefix x crash set
 		crashSets := []hotstuff.ID{0}
 		for i := 1; i <= ru.cfg.N; i++ {
